@@ -72,10 +72,14 @@ class PBKDF2SHAHandler(PasswordHasher):
         if not 1 <= hash_info.rounds <= 0xFFFFFFFF:
             # not an iteration count PBKDF2 can run (larger values overflow in hashlib)
             return False
-        new_hash = self.hash(
-            secret=secret, salt=ab64_decode(hash_info.salt), rounds=hash_info.rounds
-        )
-        return hmac.compare_digest(hash, new_hash)
+        try:
+            salt = ab64_decode(hash_info.salt)
+        except (TypeError, ValueError):
+            # not base64: a malformed hash verifies nothing
+            return False
+        new_hash = self.hash(secret=secret, salt=salt, rounds=hash_info.rounds)
+        # NOTE: compare_digest() refuses text with non-ascii characters
+        return hmac.compare_digest(hash.encode("utf-8"), new_hash.encode("utf-8"))
 
     def _salt(self) -> bytes:
         return generate_salt_by_entropy(entropy_bits=self._salt_entropy_bits).encode()
